@@ -345,7 +345,9 @@ func (e *Exec) evalConversion(st *State, call *ast.CallExpr, to types.Type) Term
 					case "wrap":
 						return e.Ctx.Define("cv", e.wrap(v, to))
 					default:
-						return v
+						// "ideal" treats arithmetic as mathematical, but a narrowing conversion is an explicit
+						// operation whose result differs from its operand outside the target range: exact semantics
+						return e.Ctx.Define("cv", e.wrap(v, to))
 					}
 				}
 			}
